@@ -629,7 +629,7 @@ Section ExecSound.
       assert (HN : forall t', t = TNonNull t' -> d <> DNull ->
                 match complete s frags cv f t' sels d with
                 | None => None
-                | Some (CVal JNull, es, cs) => Some (CErr, es ++ [[]], cs)
+                | Some (CVal JNull, es, cs) => Some (CErr, es ++ [([], CauseNull)], cs)
                 | Some o => Some o
                 end = Some o -> clean (fun j => d <> DNull -> j <> JNull) o).
       { intros t' -> Hd HH.
@@ -684,6 +684,163 @@ Section ExecSound.
         inversion H; subst. eexists _, _. split; [reflexivity | intros _; discriminate].
   Qed.
 End ExecSound.
+
+(* the arguments of every reachable field of a typed selection set coerce *)
+Lemma arguments_reach_coerce s frags vdefs cv :
+  schema_ok s = true -> cv_ok vdefs cv -> forall rt top k f,
+  set_typed s frags vdefs (nulls_of vdefs cv) rt top ->
+  reach s frags rt top k f ->
+  str_eqb (fs_name f) n_typename = false ->
+  exists fd args, lookup_field s rt (fs_name f) = Some fd /\
+                  coerce_args s cv (f_args fd) (fs_args f) = Some args.
+Proof.
+  intros Hs Hcv rt top k f Hty Hr Hn. inversion Hty as [rt0 top0 T1 _ _]; subst.
+  pose proof (T1 k f Hr) as Hf. unfold field_ok in Hf. rewrite Hn in Hf.
+  destruct (lookup_field s rt (fs_name f)) as [fd|] eqn:El; [|discriminate].
+  apply andb_true_iff in Hf. destruct Hf as [Hargs _].
+  unfold args_ok in Hargs. apply andb_true_iff in Hargs. destruct Hargs as [_ Hargs].
+  destruct (args_sound s vdefs cv Hcv (f_args fd) (fs_args f)
+              (schema_defaults s rt (fs_name f) fd Hs El) Hargs) as [args Ha].
+  exists fd, args. split; [reflexivity | exact Ha].
+Qed.
+
+(* ------------------------------------------------------------------ arbitrary data: errors are data faults *)
+
+Section Attrib.
+  Variable s : schema.
+  Variable frags : list fragment.
+  Variable vdefs : list var_def.
+  Variable cv : list (str * value).
+  Hypothesis Hschema : schema_ok s = true.
+  Hypothesis Hcv : cv_ok vdefs cv.
+
+  Let nulls := nulls_of vdefs cv.
+  Let styped := set_typed s frags vdefs nulls.
+
+  Definition noargs (es : list err) : Prop := Forall (fun e : err => snd e <> CauseArgs) es.
+
+  Lemma noargs_pre seg es : noargs es -> noargs (pre_errs seg es).
+  Proof. unfold noargs, pre_errs. intro H. apply Forall_map. eapply Forall_impl; [|exact H]. intros e He. exact He. Qed.
+
+  Lemma noargs_raise c : c <> CauseArgs -> noargs [([], c)].
+  Proof. intro H. constructor; [exact H | constructor]. Qed.
+
+  Lemma exec_groups_noargs ef : forall g r es cs,
+    (forall k fs r' es' cs', In (k, fs) g -> ef fs = Some (FRes (r', es', cs')) -> noargs es') ->
+    exec_groups ef g = Some (r, es, cs) -> noargs es.
+  Proof.
+    induction g as [|[k fs] rest IH]; intros r es cs Hf H; cbn [exec_groups] in H.
+    - inversion H; subst. constructor.
+    - destruct (ef fs) as [[|[[rx esx] csx]]|] eqn:Ef; [| |discriminate].
+      + eapply IH; [|exact H]. intros k' fs' r' es' cs' Hin. apply (Hf k'). right. exact Hin.
+      + pose proof (Hf k fs rx esx csx (or_introl eq_refl) Ef) as Hx.
+        destruct rx as [j|].
+        * destruct (exec_groups ef rest) as [[[r' es'] cs']|] eqn:Er; [|discriminate].
+          pose proof (IH r' es' cs' (fun k' fs' a b c Hin => Hf k' fs' a b c (or_intror Hin)) eq_refl) as Hr.
+          inversion H; subst. apply Forall_app. split; [apply noargs_pre; exact Hx | exact Hr].
+        * inversion H; subst. apply noargs_pre. exact Hx.
+  Qed.
+
+  Lemma complete_items_noargs cf : forall items i r es cs,
+    (forall x r' es' cs', In x items -> cf x = Some (r', es', cs') -> noargs es') ->
+    complete_items cf items i = Some (r, es, cs) -> noargs es.
+  Proof.
+    induction items as [|x rest IH]; intros i r es cs Hf H; cbn [complete_items] in H.
+    - inversion H; subst. constructor.
+    - destruct (cf x) as [[[rx esx] csx]|] eqn:Ex; [|discriminate].
+      pose proof (Hf x rx esx csx (or_introl eq_refl) Ex) as Hx.
+      destruct rx as [j|].
+      + destruct (complete_items cf rest (S i)) as [[[r' es'] cs']|] eqn:Er; [|discriminate].
+        pose proof (IH (S i) r' es' cs' (fun y a b c Hin => Hf y a b c (or_intror Hin)) Er) as Hr.
+        inversion H; subst. apply Forall_app. split; [apply noargs_pre; exact Hx | exact Hr].
+      + inversion H; subst. apply noargs_pre. exact Hx.
+  Qed.
+
+  Theorem exec_attrib : forall fuel,
+    (forall rt obj sels r es cs, is_object s rt = true -> styped rt sels ->
+        exec_sels s frags cv fuel rt obj sels = Some (r, es, cs) -> noargs es) /\
+    (forall rt obj top k fs r es cs, is_object s rt = true -> styped rt top ->
+        (forall f, In f fs -> reach s frags rt top k f) ->
+        exec_field s frags cv fuel rt obj fs = Some (FRes (r, es, cs)) -> noargs es) /\
+    (forall t sels d r es cs, sub_ok s frags vdefs cv t sels ->
+        complete s frags cv fuel t sels d = Some (r, es, cs) -> noargs es).
+  Proof.
+    induction fuel as [|f [IHs [IHf IHc]]].
+    { repeat split; intros; discriminate. }
+    repeat split.
+    - intros rt obj sels r es cs Hobj Hty H. rewrite exec_sels_S in H.
+      destruct (collect s frags cv rt f sels ([], [])) as [[v g]|] eqn:Ec; [|discriminate].
+      destruct (exec_groups (exec_field s frags cv f rt obj) g) as [[[r0 es0] cs0]|] eqn:Eg; [|discriminate].
+      assert (Hn : noargs es0).
+      { eapply exec_groups_noargs; [|exact Eg]. intros k fs r' es' cs' Hin Hf.
+        eapply (IHf rt obj sels k fs); try eassumption.
+        intros f0 Hf0. eapply collect_reach; eassumption. }
+      destruct r0; inversion H; subst; exact Hn.
+    - intros rt obj top k fs r es cs Hobj Hty Hreach H. rewrite exec_field_S in H.
+      destruct fs as [|f1 fs']; [discriminate|].
+      destruct (str_eqb (fs_name f1) n_typename) eqn:Et.
+      { inversion H; subst. constructor. }
+      destruct (arguments_reach_coerce s frags vdefs cv Hschema Hcv rt top k f1 Hty
+                  (Hreach f1 (or_introl eq_refl)) Et) as [fd [args [El Ha]]].
+      rewrite El, Ha in H.
+      destruct (complete s frags cv f (f_type fd) (merged_sels (f1 :: fs'))
+                  match lookup (fs_name f1) obj with Some d => d | None => DNull end)
+        as [[[r0 es0] cs0]|] eqn:Ecp; [|discriminate].
+      assert (Hsub : sub_ok s frags vdefs cv (f_type fd) (merged_sels (f1 :: fs'))).
+      { inversion Hty as [rt0 top0 _ _ T3]; subst. intros rt' Hrt'.
+        eapply (T3 k (f1 :: fs') f1 fd rt'); try eassumption. left. reflexivity. }
+      pose proof (IHc _ _ _ _ _ _ Hsub Ecp) as Hn.
+      unfold catch in H. destruct r0; [|destruct (is_nonnull (f_type fd))]; inversion H; subst; exact Hn.
+    - intros t sels d r es cs Hsub H. rewrite complete_S in H.
+      assert (HN : forall t', t = TNonNull t' ->
+                match complete s frags cv f t' sels d with
+                | None => None
+                | Some (CVal JNull, es, cs) => Some (CErr, es ++ [([], CauseNull)], cs)
+                | Some o => Some o
+                end = Some (r, es, cs) -> noargs es).
+      { intros t' -> HH.
+        destruct (complete s frags cv f t' sels d) as [[[r0 es0] cs0]|] eqn:Ecp; [|discriminate].
+        assert (Hsub' : sub_ok s frags vdefs cv t' sels) by exact Hsub.
+        pose proof (IHc _ _ _ _ _ _ Hsub' Ecp) as Hn.
+        destruct r0 as [j|]; [destruct j|]; inversion HH; subst; try exact Hn.
+        apply Forall_app. split; [exact Hn | apply noargs_raise; discriminate]. }
+      assert (HO : forall n rt flds, t = TNamed n -> runtime_of_b s n rt = true -> is_object s rt = true ->
+                exec_sels s frags cv f rt flds sels = Some (r, es, cs) -> noargs es).
+      { intros n rt flds -> Hrt Hobj HH. eapply IHs; [exact Hobj | | exact HH]. apply Hsub. exact Hrt. }
+      assert (HR : forall c, c <> CauseArgs -> Some (raise_here c) = Some (r, es, cs) -> noargs es).
+      { intros c Hc HH. inversion HH; subst. apply noargs_raise. exact Hc. }
+      destruct d as [|l|tn flds|items|].
+      + destruct t as [n|it|t']; [| |eapply HN; [reflexivity|exact H]]; inversion H; subst; constructor.
+      + destruct t as [n|it|t']; [|eapply HR; [|exact H]; discriminate|eapply HN; [reflexivity|exact H]].
+        destruct (lookup_type s n) as [[sc|vals|ofs ifs|ifs|ms]|];
+          try (eapply HR; [|exact H]; discriminate).
+        * destruct (complete_leaf (TScalar sc) l); [inversion H; subst; constructor | eapply HR; [|exact H]; discriminate].
+        * destruct (complete_leaf (TEnum vals) l); [inversion H; subst; constructor | eapply HR; [|exact H]; discriminate].
+      + destruct t as [n|it|t']; [|eapply HR; [|exact H]; discriminate|eapply HN; [reflexivity|exact H]].
+        destruct (lookup_type s n) as [[sc|vals|ofs ifs|ifs|ms]|] eqn:El;
+          try (eapply HR; [|exact H]; discriminate).
+        * assert (Ho : is_object s n = true) by (unfold is_object; rewrite El; reflexivity).
+          eapply HO; [reflexivity | apply runtime_self; exact Ho | exact Ho | exact H].
+        * destruct (is_object s tn && possible s n tn) eqn:Ep; [|eapply HR; [|exact H]; discriminate].
+          apply andb_true_iff in Ep. destruct Ep as [Ho Hp].
+          eapply HO; [reflexivity | | exact Ho | exact H]. unfold runtime_of_b. rewrite Ho, Hp. apply orb_true_r.
+        * destruct (is_object s tn && possible s n tn) eqn:Ep; [|eapply HR; [|exact H]; discriminate].
+          apply andb_true_iff in Ep. destruct Ep as [Ho Hp].
+          eapply HO; [reflexivity | | exact Ho | exact H]. unfold runtime_of_b. rewrite Ho, Hp. apply orb_true_r.
+      + destruct t as [n|it|t']; [| |eapply HN; [reflexivity|exact H]].
+        * destruct (lookup_type s n) as [[sc|vals|ofs ifs|ifs|ms]|]; eapply HR; try exact H; discriminate.
+        * destruct (complete_items (fun x => option_map (catch it) (complete s frags cv f it sels x)) items O)
+            as [[[r0 es0] cs0]|] eqn:Ei; [|discriminate].
+          assert (Hn : noargs es0).
+          { eapply complete_items_noargs; [|exact Ei]. intros x r' es' cs' _ Hx. cbv beta in Hx.
+            destruct (complete s frags cv f it sels x) as [[[r1 es1] cs1]|] eqn:E0; [|cbn in Hx; discriminate].
+            assert (Hsub' : sub_ok s frags vdefs cv it sels) by exact Hsub.
+            pose proof (IHc _ _ _ _ _ _ Hsub' E0) as Hn1. cbn in Hx.
+            destruct r1; [|destruct (is_nonnull it)]; inversion Hx; subst; exact Hn1. }
+          destruct r0; inversion H; subst; exact Hn.
+      + eapply HR; [|exact H]. discriminate.
+  Qed.
+End Attrib.
 
 (* ------------------------------------------------------------------ the checker decides the judgment *)
 
@@ -861,13 +1018,147 @@ Theorem arguments_coerce s frags vdefs cv rt top k f :
   str_eqb (fs_name f) n_typename = false ->
   exists fd args, lookup_field s rt (fs_name f) = Some fd /\
                   coerce_args s cv (f_args fd) (fs_args f) = Some args.
+Proof. intros Hs Hcv Hty Hr Hn. eapply arguments_reach_coerce; eassumption. Qed.
+
+(* ARBITRARY data: no error of a well-typed operation is due to argument coercion; every error
+   carries one of the data causes (raising resolver, null in a non-null position, non-list,
+   unserialisable leaf, unresolvable runtime type) *)
+Theorem errors_attributable fuel s d vars root cv j es cs :
+  schema_ok s = true ->
+  coerce_variable_values s (d_vars d) vars = Some cv ->
+  well_typed_at s d cv = true ->
+  execute_fuel fuel s d vars root = Resp j es cs ->
+  Forall (fun e : err => snd e <> CauseArgs) es.
 Proof.
-  intros Hs Hcv Hty Hr Hn. inversion Hty as [rt0 top0 T1 _ _]; subst.
-  pose proof (T1 k f Hr) as Hf. unfold field_ok in Hf. rewrite Hn in Hf.
-  destruct (lookup_field s rt (fs_name f)) as [fd|] eqn:El; [|discriminate].
-  apply andb_true_iff in Hf. destruct Hf as [Hargs _].
-  unfold args_ok in Hargs. apply andb_true_iff in Hargs. destruct Hargs as [_ Hargs].
-  destruct (args_sound s vdefs cv Hcv (f_args fd) (fs_args f)
-              (schema_defaults s rt (fs_name f) fd Hs El) Hargs) as [args Ha].
-  exists fd, args. split; [reflexivity | exact Ha].
+  intros Hs Hcv Hwt Hex.
+  apply well_typed_with_inv in Hwt. destruct Hwt as [Hnd [rt [Hrt [Hobj Hty]]]].
+  apply execute_fuel_resp in Hex. destruct Hex as [cv' [tn' [r [Hcv' [Hrt' [_ [He ->]]]]]]].
+  rewrite Hcv in Hcv'. inversion Hcv'; subst cv'. rewrite Hrt in Hrt'. inversion Hrt'; subst tn'.
+  pose proof (coerce_vars_ok _ _ _ _ Hnd Hcv) as Hok.
+  destruct (exec_attrib s (d_frags d) (d_vars d) cv Hs Hok fuel) as [Hsels _].
+  eapply Hsels; eassumption.
 Qed.
+
+(* ------------------------------------------------------------------ the shape checker decides [shaped] *)
+
+Section ShapeSound.
+  Variable s : schema.
+  Variable frags : list fragment.
+  Variable cv : list (str * value).
+
+  Lemma json_eqb_str_eq j x : json_eqb_str j x = true -> j = JStr x.
+  Proof. destruct j; cbn; try discriminate. intro H. apply str_eqb_eq in H. congruence. Qed.
+
+  Lemma fields_shape_ok_sound (chk : ty -> list selection -> json -> bool) rt :
+    (forall t sels j, chk t sels j = true -> shaped s frags cv t sels j) ->
+    forall g kvs, fields_shape_ok s chk rt g kvs = true -> shaped_fields s frags cv rt g kvs.
+  Proof.
+    intros Hchk. induction g as [|[k fs] rest IH]; intros kvs H; cbn [fields_shape_ok] in H.
+    - destruct kvs; [constructor | discriminate].
+    - destruct fs as [|f1 fs'].
+      + apply shf_empty. apply IH. exact H.
+      + destruct (str_eqb (fs_name f1) n_typename) eqn:Et.
+        * destruct kvs as [|[k' j] kvs']; [discriminate|].
+          apply andb_true_iff in H. destruct H as [H H3]. apply andb_true_iff in H. destruct H as [H1 H2].
+          apply str_eqb_eq in H1. subst k'. apply json_eqb_str_eq in H2. subst j.
+          apply shf_typename; [exact Et | apply IH; exact H3].
+        * destruct (lookup_field s rt (fs_name f1)) as [fd|] eqn:El.
+          -- destruct kvs as [|[k' j] kvs']; [discriminate|].
+             apply andb_true_iff in H. destruct H as [H H3]. apply andb_true_iff in H. destruct H as [H1 H2].
+             apply str_eqb_eq in H1. subst k'.
+             eapply shf_field; [exact Et | exact El | apply Hchk; exact H2 | apply IH; exact H3].
+          -- apply shf_unknown; [exact Et | exact El | apply IH; exact H].
+  Qed.
+
+  Lemma shape_ok_S f t sels j :
+    shape_ok s frags cv (S f) t sels j =
+    match j with
+    | JNull => negb (is_nonnull t)
+    | _ =>
+      match t with
+      | TNonNull t' => shape_ok s frags cv f t' sels j
+      | TList it => match j with JList js => forallb (shape_ok s frags cv f it sels) js | _ => false end
+      | TNamed n =>
+          match lookup_type s n with
+          | Some (TObject _ _) =>
+              match j with JObj kvs => obj_shape_ok s frags cv f n sels kvs | _ => false end
+          | Some (TInterface _) | Some (TUnion _) =>
+              match j with
+              | JObj kvs => existsb (fun rt => possible s n rt && obj_shape_ok s frags cv f rt sels kvs)
+                                    (object_names s)
+              | _ => false
+              end
+          | Some td => leaf_json td j
+          | None => false
+          end
+      end
+    end.
+  Proof. reflexivity. Qed.
+
+  Lemma obj_shape_ok_S f rt sels kvs :
+    obj_shape_ok s frags cv (S f) rt sels kvs =
+    match collect s frags cv rt f sels ([], []) with
+    | None => false
+    | Some (_, g) => fields_shape_ok s (shape_ok s frags cv f) rt g kvs
+    end.
+  Proof. reflexivity. Qed.
+
+  Lemma possible_is_object a o : possible s a o = true -> is_object s o = true.
+  Proof.
+    unfold possible, is_object. destruct (lookup_type s a) as [[| | | |]|]; try discriminate;
+      destruct (lookup_type s o) as [[| | | |]|]; try discriminate; reflexivity.
+  Qed.
+
+  Theorem shape_ok_sound : forall fuel,
+    (forall t sels j, shape_ok s frags cv fuel t sels j = true -> shaped s frags cv t sels j) /\
+    (forall rt sels kvs, obj_shape_ok s frags cv fuel rt sels kvs = true -> shaped_obj s frags cv rt sels kvs).
+  Proof.
+    induction fuel as [|f [IHv IHo]]; [split; intros; discriminate|]. split.
+    - intros t sels j H. rewrite shape_ok_S in H.
+      assert (Hgen : j <> JNull ->
+        match t with
+        | TNonNull t' => shape_ok s frags cv f t' sels j
+        | TList it => match j with JList js => forallb (shape_ok s frags cv f it sels) js | _ => false end
+        | TNamed n =>
+            match lookup_type s n with
+            | Some (TObject _ _) =>
+                match j with JObj kvs => obj_shape_ok s frags cv f n sels kvs | _ => false end
+            | Some (TInterface _) | Some (TUnion _) =>
+                match j with
+                | JObj kvs => existsb (fun rt => possible s n rt && obj_shape_ok s frags cv f rt sels kvs)
+                                      (object_names s)
+                | _ => false
+                end
+            | Some td => leaf_json td j
+            | None => false
+            end
+        end = true -> shaped s frags cv t sels j).
+      { intros Hj HH. destruct t as [n|it|t'].
+        - destruct (lookup_type s n) as [td|] eqn:El; [|discriminate].
+          assert (Hobj : forall rt kvs, runtime_of s n rt -> j = JObj kvs ->
+                          obj_shape_ok s frags cv f rt sels kvs = true -> shaped s frags cv (TNamed n) sels j).
+          { intros rt kvs Hrt -> Ho. eapply sh_obj; [exact Hrt | apply IHo; exact Ho]. }
+          assert (Habs : forall kvs, (exists fs, td = TInterface fs) \/ (exists ms, td = TUnion ms) ->
+                          j = JObj kvs ->
+                          existsb (fun rt => possible s n rt && obj_shape_ok s frags cv f rt sels kvs)
+                                  (object_names s) = true -> shaped s frags cv (TNamed n) sels j).
+          { intros kvs _ Hjk He. apply existsb_exists in He. destruct He as [rt [_ He]].
+            apply andb_true_iff in He. destruct He as [Hp Ho].
+            eapply Hobj; [|exact Hjk|exact Ho]. right. split; [eapply possible_is_object; exact Hp | exact Hp]. }
+          destruct td as [sc|vals|ofs ifs|ifs|ms].
+          + eapply sh_leaf; eassumption.
+          + eapply sh_leaf; eassumption.
+          + destruct j; try discriminate. eapply Hobj; [|reflexivity|exact HH].
+            left. split; [unfold is_object; rewrite El; reflexivity | reflexivity].
+          + destruct j; try discriminate. eapply Habs; [left; eexists; reflexivity | reflexivity | exact HH].
+          + destruct j; try discriminate. eapply Habs; [right; eexists; reflexivity | reflexivity | exact HH].
+        - destruct j; try discriminate. apply sh_list. apply Forall_forall. intros x Hx.
+          rewrite forallb_forall in HH. apply IHv. apply HH. exact Hx.
+        - apply sh_nonnull; [exact Hj | apply IHv; exact HH]. }
+      destruct j; try (apply Hgen; [discriminate | exact H]).
+      apply sh_null. apply negb_true_iff in H. exact H.
+    - intros rt sels kvs H. rewrite obj_shape_ok_S in H.
+      destruct (collect s frags cv rt f sels ([], [])) as [[v g]|] eqn:Ec; [|discriminate].
+      eapply sho; [exact Ec|]. eapply fields_shape_ok_sound; [|exact H]. exact IHv.
+  Qed.
+End ShapeSound.
